@@ -157,6 +157,7 @@ pub struct Inst<T: Smp> {
     pub dead: bool,
     pub log_vals: bool,      // log output values (2^-20 fixed point) of the first active channel
     pub last_out: Vec<f64>,  // the frames written by the last call (first active channel)
+    pub sig_peak: f64,       // largest |sample| supplied or produced so far
     pub blk: usize,          // block size for stream block digests (0 = off)
     pub blk_acc: Vec<u64>,   // bits of the frames of the current, incomplete block (first active channel)
 }
@@ -478,6 +479,7 @@ pub fn build<T: Smp>(op: &Value) -> (Option<Inst<T>>, Value) {
                 blk_acc: Vec::new(),
                 log_vals: gb(op, "vals", false),
                 last_out: Vec::new(),
+                sig_peak: 0.0,
             };
             m.insert("post".into(), getters(&inst.res));
             m.insert("priv".into(), privs(&inst.res));
@@ -694,6 +696,14 @@ impl<T: Smp> Inst<T> {
             }
             win.push(self.fill_input(c, len, zero_from));
         }
+        for v in &win {
+            for x in v {
+                let a = x.to64().abs();
+                if a > self.sig_peak && a.is_finite() {
+                    self.sig_peak = a;
+                }
+            }
+        }
         // ---- output buffers
         let sent = T::from64(SENT);
         let mut wout: Vec<Vec<T>> = Vec::with_capacity(out_ch);
@@ -909,6 +919,11 @@ impl<T: Smp> Inst<T> {
                     let v = &outs[c];
                     let upto = nout.min(v.len());
                     self.last_out = v[..upto].iter().map(|x| x.to64()).collect();
+                    for x in &self.last_out {
+                        if x.abs() > self.sig_peak && x.is_finite() {
+                            self.sig_peak = x.abs();
+                        }
+                    }
                     if self.log_vals {
                         let n = upto.min(self.taus_cap);
                         m.insert(
@@ -1132,10 +1147,10 @@ impl<T: Smp> Inst<T> {
 
 pub type Slot = (AnyInst, f64, f64);
 
-fn last_out_of(s: &Slot) -> (&Vec<f64>, u32) {
+fn last_out_of(s: &Slot) -> (&Vec<f64>, u32, f64) {
     match &s.0 {
-        AnyInst::F32(i) => (&i.last_out, 32),
-        AnyInst::F64(i) => (&i.last_out, 64),
+        AnyInst::F32(i) => (&i.last_out, 32, i.sig_peak),
+        AnyInst::F64(i) => (&i.last_out, 64, i.sig_peak),
     }
 }
 
@@ -1147,12 +1162,13 @@ fn cmp_event(insts: &[Option<Slot>], op: &Value) -> Value {
     let mut ev = json!({"ev":"cmp","id":a as i64,"a":a as i64,"b":b as i64,"n":0,"units":0,"peak":fx(0.0),"bits":64,
         "bound": gi(op, "bound", 0)});
     if let (Some(Some(sa)), Some(Some(sb))) = (insts.get(a), insts.get(b)) {
-        let (va, ta) = last_out_of(sa);
-        let (vb, tb) = last_out_of(sb);
+        let (va, ta, pa) = last_out_of(sa);
+        let (vb, tb, pb) = last_out_of(sb);
         let n = va.len().min(vb.len());
         let bits = ta.min(tb);
         let eps = if bits == 32 { f32::EPSILON as f64 } else { f64::EPSILON };
-        let mut peak = 0.0f64;
+        // relative to the signal peak (largest sample supplied or produced so far)
+        let mut peak = pa.max(pb);
         let mut diff = 0.0f64;
         for k in 0..n {
             peak = peak.max(va[k].abs()).max(vb[k].abs());
